@@ -256,6 +256,13 @@ def run(ctx):
                     src, _w = iteration_context(c)
                     if src is not None and len(ret) == 1 and repr(_root_arg(src)) == repr(_root_arg(Sym(ret[0].fn).operand(ret[0].args[0]))):
                         ok3 = True
+        if not ok3 and len(kp) == 1 and len(ret) == 1:
+            # spelled as a pre-sized vector: v = Vec::with_capacity(n); v.extend(map.into_iter().map(Label::new))
+            for c in nonforeign_calls(kp[0].fn):
+                if c.fn is kp[0].fn and callee_method_name(c) == "extend" and "Vec<" in (c.resolved or ""):
+                    a1 = Sym(c.fn).operand(c.args[1])
+                    if "into_iter" in sym_str(a1) and repr(_root_arg(Sym(c.fn).operand(c.args[0]))) == repr(_root_arg(Sym(kp[0].fn).operand(kp[0].args[1]))):
+                        ok3 = True
         chk.ob("C17.b", f"{ek.path} [key rebuilt from the map]", ok3, "Key::from_parts(name, labels collected from the map) — names are unique by construction" if ok3 else "the enhanced key is not rebuilt from the merged map", ek.loc())
         names = region_callnames(ek)
         ok4 = "current_span" in names and "downcast_ref" in names and "is_empty" in names and names.count("id") >= 1
